@@ -128,6 +128,26 @@ pub mod c02 {
         }
         Ok(acc)
     }
+    // G5b controls: a rebuilt frame owns `register_guard`; its parked value must be rooted through it
+    pub struct Frame { pub parked: Option<JsValue>, pub registers: Vec<JsValue>, pub register_guard: super::gc::Guard<JsObject> }
+    fn dup(v: &JsValue, g: &super::gc::Guard<JsObject>) -> JsValue {
+        if let JsValue::Object(o) = v {
+            g.guard(o.clone());
+        }
+        v.clone()
+    }
+    /// BAD: rooted through the VM's guard, kept in a frame that owns another guard
+    pub fn rebuild_frame_foreign_guard(saved: &[JsValue], parked: Option<&JsValue>, vm_guard: super::gc::Guard<JsObject>) -> (Frame, super::gc::Guard<JsObject>) {
+        let frame_guard = super::gc::Guard(Vec::new(), std::marker::PhantomData);
+        let f = Frame { parked: parked.map(|p| dup(p, &vm_guard)), registers: saved.to_vec(), register_guard: frame_guard };
+        (f, vm_guard)
+    }
+    /// GOOD
+    pub fn rebuild_frame_own_guard(saved: &[JsValue], parked: Option<&JsValue>, vm_guard: super::gc::Guard<JsObject>) -> (Frame, super::gc::Guard<JsObject>) {
+        let frame_guard = super::gc::Guard(Vec::new(), std::marker::PhantomData);
+        let f = Frame { parked: parked.map(|p| dup(p, &frame_guard)), registers: saved.to_vec(), register_guard: frame_guard };
+        (f, vm_guard)
+    }
     /// GOOD: the guard is kept alive alongside the value
     pub fn rooted_accumulator(interp: &mut Interp, cb: JsValue, n: u32) -> Result<Guarded, ()> {
         let mut acc = JsValue::Undefined;
